@@ -7,9 +7,8 @@ import os
 import struct
 import subprocess
 
-import elfgen
 import elfread
-from elfgen import (ElfObject, SHT_PROGBITS, SHT_NOBITS, SHF_ALLOC, SHF_WRITE, SHF_EXECINSTR,
+from elfgen import (ElfObject, SHF_ALLOC, SHF_WRITE, SHF_EXECINSTR,
                     STB_GLOBAL, STB_WEAK, STB_GNU_UNIQUE, STT_OBJECT, STT_FUNC, STV_DEFAULT,
                     STV_HIDDEN, STV_PROTECTED)
 
@@ -130,10 +129,9 @@ def selftest_ar(workdir):
         real = os.path.join(workdir, "real_%s.a" % flag)
         if os.path.exists(real):
             os.unlink(real)
-        r = subprocess.run(["ar", flag, real, *[n for n, _ in mem]], cwd=workdir,
-                           stdout=subprocess.PIPE, stderr=subprocess.PIPE)
-        if r.returncode:
-            return "ar %s failed: %s" % (flag, r.stderr.decode())
+        rc, err = run_tool(["ar", flag, real, *[n for n, _ in mem]], workdir)
+        if rc:
+            return "ar %s failed: %s" % (flag, err)
         with open(real, "rb") as f:
             want = f.read()
         got = ar_bytes(mem, thin)
